@@ -108,6 +108,8 @@ CORPUS = {
     "sparql-unknown-prefix": 'ex:S a sh:NodeShape ; sh:targetNode ex:n0 ; sh:sparql [ sh:select "SELECT $this WHERE { $this nope:p ?v }" ] .',
     "sparql-prefixes-literal": 'ex:S a sh:NodeShape ; sh:targetNode ex:n0 ; sh:sparql [ sh:select "SELECT $this WHERE { $this ex:p0 ?v }" ; sh:prefixes "x" ] .',
     "sparql-declare-bad": 'ex:S a sh:NodeShape ; sh:targetNode ex:n0 ; sh:sparql [ sh:select "SELECT $this WHERE { $this e2:p0 ?v }" ; sh:prefixes ex:d2 ] . ex:d2 sh:declare [ sh:prefix 5 ; sh:namespace ex:x ] .',
+    "sparql-unevaluable": 'ex:S a sh:NodeShape ; sh:targetNode ex:n0 ; sh:sparql [ sh:prefixes ex:decl ; sh:select "SELECT $this (EXISTS { $this ex:p0 ?x } AS ?value) WHERE {}" ] .',
+    "component-unevaluable": 'ex:Comp a sh:ConstraintComponent ; sh:parameter [ sh:path ex:par ] ; sh:validator [ sh:prefixes ex:decl ; sh:select "SELECT $this (EXISTS { $this ex:p0 ?x } AS ?value) WHERE {}" ] . ex:S a sh:NodeShape ; sh:targetNode ex:n0 ; ex:par 1 .',
     "sparql-minus": 'ex:S a sh:NodeShape ; sh:targetNode ex:n0 ; sh:sparql [ sh:prefixes ex:decl ; sh:select "SELECT $this WHERE { $this ex:p0 ?v . MINUS { $this ex:p1 ?w } }" ] .',
     "severity-literal": 'ex:S a sh:NodeShape ; sh:targetNode ex:n0 ; sh:class ex:Z ; sh:severity "high" .',
     "message-iri": 'ex:S a sh:NodeShape ; sh:targetNode ex:n0 ; sh:class ex:Z ; sh:message ex:m .',
@@ -128,6 +130,9 @@ CORPUS = {
 }
 
 CORPUS_ADV = {
+    "target-unevaluable": 'ex:S a sh:NodeShape ; sh:target [ a sh:SPARQLTarget ; sh:prefixes ex:decl ; sh:select "SELECT ?this (EXISTS { ?this ex:p0 ?x } AS ?y) WHERE { ?this ?p ?o }" ] ; sh:class ex:Z .',
+    "fn-unevaluable": 'ex:f a sh:SPARQLFunction ; sh:parameter [ sh:path ex:a ] ; sh:returnType xsd:boolean ; sh:prefixes ex:decl ; sh:select "SELECT (EXISTS { $a ex:p0 ?x } AS ?r) WHERE {}" . ex:S a sh:NodeShape ; sh:targetNode ex:n0 ; sh:expression [ ex:f ( sh:this ) ] .',
+    "rule-unevaluable": 'ex:S a sh:NodeShape ; sh:targetNode ex:n0 ; sh:rule [ a sh:SPARQLRule ; sh:prefixes ex:decl ; sh:construct "CONSTRUCT { $this ex:x ?v } WHERE { { SELECT (EXISTS { ?s ex:p0 ?o } AS ?v) WHERE {} } }" ] .',
     "rule-nosubject": 'ex:S a sh:NodeShape ; sh:targetNode ex:n0 ; sh:rule [ a sh:TripleRule ; sh:predicate ex:p ; sh:object ex:o ] .',
     "rule-two-objects": 'ex:S a sh:NodeShape ; sh:targetNode ex:n0 ; sh:rule [ a sh:TripleRule ; sh:subject sh:this ; sh:predicate ex:p ; sh:object ex:o, ex:o2 ] .',
     "rule-untyped": 'ex:S a sh:NodeShape ; sh:targetNode ex:n0 ; sh:rule [ sh:subject sh:this ; sh:predicate ex:p ; sh:object ex:o ] .',
